@@ -53,11 +53,13 @@ package etype
 //@   requires len(data) > 0
 //@   ensures err == nil <==> et_encok(tagof(e), len(key), len(data))
 //@   ensures err == nil ==> len(ct) == et_ctlen(tagof(e), len(data))
+//@   ensures err == nil ==> bytes(ct) == et_E(tagof(e), bytes(key), ite(tagof(e) == typeid("crypto.Des3CbcSha1Kd"), zpad8(bytes(data), len(data)), bytes(data)))
 //@ func (crypto/etype.EType).DecryptData(e, key, data) (pt, err)
 //@   pure
 //@   trusted_frame interface frame; implementations delegate to the family functions
 //@   ensures err == nil <==> et_decok(tagof(e), len(key), len(data))
 //@   ensures err == nil ==> len(pt) == len(data)
+//@   ensures err == nil ==> bytes(pt) == et_D(tagof(e), bytes(key), bytes(data))
 //@   ensures err != nil ==> len(pt) == 0
 //@ func (crypto/etype.EType).DeriveKey(e, protocolKey, usage) (k, err)
 //@   pure
@@ -75,9 +77,18 @@ package etype
 //@   ensures et_known(tagof(e)) ==> bytes(k) == et_r2k(tagof(e), bytes(b))
 //@   trusted_frame interface frame; implementations delegate to the family functions
 //@   requires tagof(e) == typeid("crypto.Des3CbcSha1Kd") ==> len(b) >= 21
+// Integrity check of a decrypted message (properties C05 / C06): true only if the MAC carried by the ciphertext is
+// the RFC one - HMAC(Ki, plaintext) truncated at the end of the ciphertext (RFC 3961 5.3), HMAC(Ki, IV | C) truncated
+// (RFC 8009 5), or the leading HMAC-MD5(K2, plaintext) (RFC 4757 5; the key passed is K2).
+//@ define mac_tail(t, ct) := seqsub(ct, len(ct) - et_hmacbits(t) / 8, len(ct))
+//@ define et_integ_ok(t, key, usage, ct, pt) := len(ct) >= et_hmacbits(t) / 8 && ite(t == typeid("crypto.RC4HMAC"), seqtrunc(ct, 16) == hmac(fid.crypto.md5.New, key, pt),
+//@     ite(t == typeid("crypto.Aes128CtsHmacSha256128") || t == typeid("crypto.Aes256CtsHmacSha384192"),
+//@         mac_tail(t, ct) == simplified_cksum(t, key, usage_const(usage, 0x55), seqcat(seqzeros(16), seqtrunc(ct, len(ct) - et_hmacbits(t) / 8))),
+//@         mac_tail(t, ct) == simplified_cksum(t, key, usage_const(usage, 0x55), pt)))
 //@ func (crypto/etype.EType).VerifyIntegrity(e, protocolKey, ct, pt, usage) (ok)
 //@   pure
 //@   trusted_frame interface frame; implementations delegate to the family functions
+//@   ensures ok ==> et_integ_ok(tagof(e), bytes(protocolKey), usage, bytes(ct), bytes(pt))
 //@ func (crypto/etype.EType).GetChecksumHash(e, protocolKey, data, usage) (h, err)
 //@   pure
 //@   trusted_frame interface frame; implementations delegate to the family functions
@@ -87,17 +98,31 @@ package etype
 //@   pure
 //@   ensures ok ==> bytes(chksum) == et_cksum(tagof(e), bytes(protocolKey), usage, bytes(data))
 //@   trusted_frame interface frame; implementations delegate to the family functions
+// Message level (properties C05 / C06), for all six etypes: decryption succeeds only on a ciphertext whose MAC is the
+// RFC one over what it decrypts to (msg_dec_ok), the plaintext returned is that decryption without the confounder
+// (msg_dec_pt), and encryption produces the RFC composition over the confounder just drawn from crypto/rand (msg_enc).
+//@ define is_8009(t) := t == typeid("crypto.Aes128CtsHmacSha256128") || t == typeid("crypto.Aes256CtsHmacSha384192")
+//@ define is_rc4(t) := t == typeid("crypto.RC4HMAC")
+//@ define msg_dec_ok(t, key, usage, c) := ite(is_rc4(t), len(c) >= 24 && seqtrunc(c, 16) == hmac(fid.crypto.md5.New, rc4_k2(key, usage), rc4_body(key, usage, c)),
+//@     ite(is_8009(t), dec_ok_8009(t, key, usage, c), dec_ok_3961(t, key, usage, c)))
+//@ define msg_dec_pt(t, key, usage, c) := ite(is_rc4(t), seqsub(rc4_body(key, usage, c), 8, len(c) - 16),
+//@     seqsub(dec_body(t, key, usage, c), et_confounder(t), len(c) - et_hmacbits(t) / 8))
+//@ define msg_enc(t, key, usage, conf, m, ml) := ite(is_rc4(t), enc_4757(key, usage, seqcat(conf, m)), ite(is_8009(t), enc_8009(t, key, usage, seqcat(conf, m)),
+//@     enc_3961(t, key, usage, ite(t == typeid("crypto.Des3CbcSha1Kd"), zpad8(seqcat(conf, m), 8 + ml), seqcat(conf, m)))))
 //@ func (crypto/etype.EType).DecryptMessage(e, key, ciphertext, usage) (pt, err)
 //@   pure
 //@   trusted_frame interface frame; implementations delegate to the family functions
 //@   ensures err != nil ==> len(pt) == 0
 //@   ensures err == nil <==> et_dec_ok(tagof(e), bytes(key), usage, bytes(ciphertext))
 //@   ensures err == nil ==> bytes(pt) == et_dec_pt(tagof(e), bytes(key), usage, bytes(ciphertext))
-//@   trusted_ensures 1 et_dec_ok is the definition of "this etype's DecryptMessage accepts" at the protocol level; C05/C06 relate it to the RFC compositions
+//@   trusted_ensures 1 et_dec_ok is the name of "this etype's DecryptMessage accepts" used by the protocol-level contracts (C01, C09); the next two clauses say what acceptance implies
 //@   trusted_ensures 2 et_dec_pt likewise
+//@   ensures err == nil ==> msg_dec_ok(tagof(e), bytes(key), usage, bytes(ciphertext))
+//@   ensures err == nil ==> bytes(pt) == msg_dec_pt(tagof(e), bytes(key), usage, bytes(ciphertext))
 //@ func (crypto/etype.EType).EncryptMessage(e, key, message, usage) (iv, ct, err)
 //@   pure
 //@   trusted_frame interface frame; implementations delegate to the family functions
+//@   ensures err == nil ==> len(lastRandom) == et_confounder(tagof(e)) && bytes(ct) == msg_enc(tagof(e), bytes(key), usage, lastRandom, bytes(message), len(message))
 //@ func (crypto/etype.EType).StringToKey(e, secret, salt, s2kparams) (k, err)
 //@   pure
 //@   requires tagof(e) == typeid("crypto.Des3CbcSha1Kd") ==> len(secret) + len(salt) > 0
